@@ -36,7 +36,7 @@ def strip(trace):
 
 
 def run_family(run, pid, num, variants, seed_offset=0):
-    behs = mdibcommon.generate(run, num, run.pick(30, 40), run.seed + 1000 + seed_offset)
+    behs = mdibcommon.generate(run, num, run.pick(30, 40), run.seed + 1000 + seed_offset, fold=run.pick(1, 2))
     traces = record(behs, variants)
     rejects = tracecheck.validate(run, 'MirrorTrace', 'MirrorTrace.cfg', [strip(t) for t in traces], chunk=600)
     fam = FAMILY[pid]
